@@ -452,6 +452,7 @@ def jobs(tier, seed):
 
 
 META = {
+    "fp_lemma": True,
     "expected_covers": {"composeinfo_old": ["loaded", "rewritten"], "images_old": ["loaded", "rewritten"], "rpms_10": ["loaded"],
                         "treeinfo_old": ["loaded", "rewritten"], "treeinfo_00": ["loaded", "rewritten"], "fixture_idempotent": ["loaded"]},
     "assumptions": [
